@@ -95,7 +95,8 @@ class Pproduct(FunctionPattern):  # Was PstepNfunc.
         max_level = size - 1
         streams = [None] * size
         values = [None] * size
-        yield from self._recgen(inval, 0, max_level, patterns, streams, values)
+        return (yield from self._recgen(
+            inval, 0, max_level, patterns, streams, values))
 
     def _recgen(self, inval, level, max_level, patterns, streams, values):
         try:
@@ -103,10 +104,11 @@ class Pproduct(FunctionPattern):  # Was PstepNfunc.
             while True:
                 values[level] = streams[level].next(inval)
                 if level < max_level:
-                    yield from self._recgen(
+                    inval = yield from self._recgen(
                         inval, level + 1, max_level, patterns, streams, values)
                 else:
-                    yield self.func(values)
+                    # Each evaluation gets its own list, values is reused.
+                    inval = yield self.func(values[:])
         except stm.StopStream:
             pass
         return inval
